@@ -304,6 +304,11 @@ func (mm MeteringMode) MarshalJSON() (buf []byte, err error) {
 // UnmarshalJSON implements the JSONMarshaler interface that is
 // used by encoding/json
 func (mm *MeteringMode) UnmarshalJSON(buf []byte) error {
+	if len(buf) >= 2 && buf[0] == '"' && buf[len(buf)-1] == '"' {
+		// a JSON object key: encoding/json writes map keys with MarshalText (the name) and
+		// hands them back, quoted, to UnmarshalJSON
+		return mm.UnmarshalText(buf[1 : len(buf)-1])
+	}
 	v, err := strconv.ParseUint(string(buf), 10, 8)
 	*mm = MeteringMode(v)
 	return err
